@@ -694,3 +694,9 @@ mod test {
         assert!(cb.packets.is_empty());
     }
 }
+
+#[cfg(kani)]
+mod verif_kani {
+    use super::*;
+    include!(concat!(env!("LIBTW2_VERIF_HARNESS"), "/net_net.rs"));
+}
